@@ -168,6 +168,9 @@ def formulas(which: str, tier: str) -> list:
                 out.append(Quant(k1, "<p>", o, Quant(k2, "<q>", Sym("<d>"), Atom('{0} == {1}', (Sym("<q>"), Desc(Sym("<p>"), "<d>")), cmp=True))))
         for k1 in ("any", "all"):
             for k2 in ("any", "all"):
+                # star-style quantifiers bound to NONTERMINALS, the inner domain rooted at the outer bound symbol
+                out.append(Quant(k1, "<p>", o, Quant(k2, "<q>", Child(Sym("<p>"), "<d>"), Atom('int({0}) > 1', (Sym("<q>"),), cmp=True))))
+                out.append(Quant(k1, "<p>", o, Quant(k2, "<q>", Desc(Sym("<p>"), "<d>"), Atom('str({0}) == "1"', (Sym("<q>"),), cmp=True))))
                 out.append(Quant(k1, "x", o, Quant(k2, "y", Sym("<d>"), Atom('str(x).startswith(str(y))'))))
                 out.append(Quant(k1, "x", o, Quant(k2, "y", Sym("<d>"), Atom('int(y) > 1', cmp=True))))
                 # inner verdict depends on the OUTER python variable (a memo that forgets it serves the first result to all)
